@@ -339,6 +339,78 @@ def rule_f5(ctx, F):
             root, short, arg[:80], fn.loc(pt)), {"site": fn.loc(pt)})
 
 
+def rule_b1(ctx, F):
+    """B1 (build_test_entry): the divider is the longest matching `---` line, the later one on ties
+    (an earlier same-length line is input text); the input is what precedes it and the output what
+    follows it; at most one line terminator is taken off the input; the entry keeps the header's name,
+    attribute text and delimiter lengths."""
+    import rsrules
+    from rsrules import deep_text, text_gate, cond_text
+    fn = ctx.need_fn(F, "test::build_test_entry", "B1")
+    if not fn:
+        return
+    ex = [(pt, x) for pt, e in fn.points() for x in own_walk(e) if x.get("k") == "agg" and x.get("variant") == "Example"]
+    if not ex:
+        ctx.bad("B1", "build_test_entry:builds-example", "build_test_entry no longer constructs TestEntry::Example")
+        return
+    flds = {f["f"]: f["e"] for f in ex[0][1]["fields"]}
+    pend = fn.params[2]["name"] if len(fn.params) > 2 else "pending"
+    want = {"name": "(%s).name" % pend, "header_delim_len": "(%s).header_delim_len" % pend, "attributes_str": "(%s).attributes_str" % pend, "attributes": "(%s).attributes" % pend}
+    for f, w in want.items():
+        t = deep_text(fn, flds.get(f), user=True) if f in flds else "?"
+        if t == w:
+            ctx.ok("B1", "build_test_entry:entry.%s" % f, "Example.%s = %s" % (f, w), nontrivial=False)
+        else:
+            ctx.bad("B1", "build_test_entry:entry.%s" % f, "TestEntry::Example.%s is `%s`, not the header's `%s`" % (f, t[:80], w))
+    # the divider: which local holds the best candidate?
+    dt = deep_text(fn, flds.get("divider_delim_len"), user=True)
+    m = re.search(r"Try>::branch\((\w+)\)", dt)
+    best = m.group(1) if m else None
+    if not best or not dt.endswith(".0).0"):
+        ctx.bad("B1", "build_test_entry:divider-length-from-best", "Example.divider_delim_len is no longer the delimiter length of the chosen divider (`%s`)" % dt[:100])
+        return
+    ctx.ok("B1", "build_test_entry:divider-length-from-best", "Example.divider_delim_len is the chosen divider's delimiter length")
+    elems = dict(fn.points())
+    sets = []
+    for pt, e in fn.points():
+        for x in own_walk(e):
+            if x.get("k") == "assign" and strip(x["l"]).get("k") == "ref" and strip(x["l"]).get("name") == best:
+                r = rsrules.cond_def(fn, x["r"])
+                if r.get("k") == "agg" and r.get("variant") == "Some":
+                    sets.append(pt)
+    ctx.floor("updates of the best divider", len(sets), 1)
+    text_gate(ctx, "B1", fn, sets, [
+        ("a candidate is a line of dashes", [(("parse_delimiter_line(", ", 45)", "=Some"), True)]),
+        ("…whose suffix matches the header's", [(("suffix_matches(",), True)]),
+        ("…at least as long as the best so far (the later line wins a tie)", [((" >= ",), True)]),
+    ], accept_desc="choosing a divider")
+    # input before / output after
+    idx = [(pt, x) for pt, e in fn.points() for x in own_walk(e) if x.get("k") == "call" and "Index" in (x.get("fn") or "") and x.get("a") and rsrules.trace_root(fn, x["a"][0]) == fn.params[0]["name"]]
+    texts = [deep_text(fn, x["a"][1], user=True) for pt, x in idx]
+    before = any(t.startswith("RangeTo") and ".1" in t for t in texts)
+    after = any(t.startswith("RangeFrom") and "+ 1" in t for t in texts)
+    if before and after:
+        ctx.ok("B1", "build_test_entry:input-before-output-after", "input = lines[..divider], output = lines[divider + 1..]")
+    else:
+        ctx.bad("B1", "build_test_entry:input-before-output-after", "build_test_entry no longer slices the body as [..divider] / [divider + 1..] (slices: %s)" % [t[:60] for t in texts])
+    pops = [pt for pt, e in fn.points() for x in own_walk(e) if x.get("k") == "call" and (x.get("fn") or "").endswith("::pop")]
+    cyc = []
+    for pt in pops:
+        seen, work = set(), [e.to for e in fn.blocks[pt[0]].succs]
+        while work:
+            b = work.pop()
+            if b in seen:
+                continue
+            seen.add(b)
+            work.extend(e.to for e in fn.blocks[b].succs)
+        if pt[0] in seen:
+            cyc.append(pt)
+    if pops and not cyc and len(pops) <= 2:
+        ctx.ok("B1", "build_test_entry:strips-one-terminator", "at most one LF and one CR are taken off the end of the input (%d pops, none in a loop)" % len(pops))
+    else:
+        ctx.bad("B1", "build_test_entry:strips-one-terminator", "build_test_entry strips the end of the input with %d pops (%d inside a loop): inputs ending in blank lines lose them on --update" % (len(pops), len(cyc)))
+
+
 def rule_f4(ctx, F):
     """The field stripper recognises every plain-identifier field name (ASCII letters, digits and
     `_` — the alphabet the generator's own identifier sanitiser passes through unchanged).  A
@@ -395,6 +467,7 @@ def run(ctx):
     rule_f3(ctx, F)
     rule_f4(ctx, F)
     rule_f5(ctx, F)
+    rule_b1(ctx, F)
     return ctx.finish(
         "Field-flow, taint and path-counting rules over rustc MIR of crates/cli/src/test.rs: each TestCorrection is built from the entry's own name/input/attributes/delimiter lengths; "
         "the writer reads every field; with --update each Example path to Ok(true) records exactly one correction; the recognised delimiter suffix must reach the entry. "
